@@ -1504,7 +1504,9 @@ class Program:
             # call sites and syntactic matches see the canonical method name
             # when the new name is used for nothing else
             new, old = x.split('.')[-1], m.split('.')[-1]
-            if new != old and not any(
+            from .deextract import _BUILTIN_METHODS
+            if new != old and new not in _BUILTIN_METHODS and \
+                    new not in CONTAINER_METHODS and not any(
                     q.split('.')[-1] in (new, old) for q in self.funcs
                     if q != m):
                 for tree in self.modules.values():
